@@ -194,7 +194,7 @@ def d2(ctx, F):
     def sub_fail(rule, key, what, site="", detail=None):
         sub.findings.append((rule, key, what, site))
     sub.fail = sub_fail
-    sites = panics.analyse(sub, bodies, "C11.D2.no-frame-panics-router", skip=skip, include_alloc=False)
+    sites = panics.analyse(sub, bodies, "C11.D2.no-frame-panics-router", skip=skip, include_alloc=False, F=F)
     ctx.floor("C11.D2.sites", len(sites), 6)
     by_body = {}
     for s in sites:
